@@ -6,6 +6,13 @@ import numpy as np
 
 from harness import direct
 from harness.c01 import qlit
+from harness.engine import REPO as _REPO
+
+
+def engine_repo():
+    return _REPO
+
+
 from harness.engine import VERIF, coq_bad_cases, coq_list, zlit
 
 INFO = {
@@ -191,7 +198,7 @@ def run(ctx):
                                       {"what": "cusum-vs-l2"})
                     S1 = np.vstack([np.zeros(p), np.cumsum(X, axis=0)])
                     for j in range(p):
-                        tr = py2coq.pyeval(py2coq.to_ir("cusum_score", "/repo"), {"S1": S1[:, j], "s": s, "k": k, "e": e})
+                        tr = py2coq.pyeval(py2coq.to_ir("cusum_score", engine_repo()), {"S1": S1[:, j], "s": s, "k": k, "e": e})
                         if not direct.close([cu[j]], [tr], scale=1e-6):
                             ctx.mismatch(f"translated cusum kernel gives {tr}, the real function {cu[j]}", inp, {"what": "translator-vs-code", "kernel": "cusum_score"})
                 # local anomaly score
